@@ -9,7 +9,7 @@ LevelBound == TLCGet("level") <= Depth
 \* one JSON line per simulated behaviour (spec -> impl replay)
 EmitAtDepth ==
     (TLCGet("level") = Depth) =>
-        PrintT(<<"REPLAY", ToJson([cfg |-> [pathReq |-> opt.pathReq, enc |-> opt.enc, retention |-> Retention, window |-> Window, parties |-> Parties, creator |-> Creator],
+        PrintT(<<"REPLAY", ToJson([cfg |-> [pathReq |-> opt.pathReq, enc |-> opt.enc, retention |-> Retention, window |-> Window, psk |-> pskStore, parties |-> Parties, creator |-> Creator],
                                    steps |-> [i \in 1..Len(hist) |-> hist[i] @@ [aux |-> haux[i]]]])>>)
 
 (***************************************************************************)
@@ -53,9 +53,23 @@ Progress ==
 ValidByValue(g) ==
     {[kind |-> "add", ref |-> 0, by |-> g.leaf, kp |-> i] : i \in {i \in 1..Len(kps) : ~kps[i].used /\ kps[i].owner \notin Members(g.tree)}}
     \cup {[kind |-> "rem", ref |-> 0, by |-> g.leaf, target |-> l] : l \in OccupiedLeaves(g.tree) \ {g.leaf}}
+    \cup (IF "psk" \in Features THEN {[kind |-> "psk", ref |-> 0, by |-> g.leaf, id |-> id] : id \in PskIds}
+                                        \cup {[kind |-> "rpsk", ref |-> 0, by |-> g.leaf, epoch |-> e] : e \in 0..g.epoch} ELSE {})
+    \cup (IF "gce" \in Features THEN {[kind |-> "gce", ref |-> 0, by |-> g.leaf, ver |-> 100 + Len(commits)]} ELSE {})
 
+ValidAdds(g) == {it \in ValidByValue(g) : it.kind = "add"}
+ValidRems(g) == {it \in ValidByValue(g) : it.kind = "rem"}
+ValidOther(g) == {it \in ValidByValue(g) : it.kind \notin {"add", "rem"}}
+
+\* by-value proposals: mostly adds (trees must grow for unmerged leaves and deep paths), some removals,
+\* PSK / GCE where enabled, and a tail of arbitrary (mostly invalid) ones
 PickItem(g) ==
-    IF RandomElement(1..(10 + Z)) <= 8 /\ ValidByValue(g) # {} THEN RandomElement(ValidByValue(g)) ELSE RandomElement(ByValueItems(g))
+    LET r == RandomElement(1..(20 + Z)) IN
+    IF r <= 10 /\ ValidAdds(g) # {} THEN RandomElement(ValidAdds(g))
+    ELSE IF r <= 13 /\ ValidRems(g) # {} THEN RandomElement(ValidRems(g))
+    ELSE IF r <= 17 /\ ValidOther(g) # {} THEN RandomElement(ValidOther(g))
+    ELSE IF r <= 18 THEN RandomElement(ByValueItems(g))
+    ELSE IF ValidByValue(g) # {} THEN RandomElement(ValidByValue(g)) ELSE RandomElement(ByValueItems(g))
 PickByVal(g) == LET k == RandomElement(0..(ByValueMax + Z)) IN [i \in 1..k |-> PickItem(g)]
 
 CONSTANTS WPropose, WCommit, WApp, WStore      \* category weights (percent) of non-progress steps
@@ -70,9 +84,14 @@ Filler ==   \* always enabled once somebody is a member: a failing or stale call
 SimPropose ==
     \/ \E p \in Parties : GenKeyPackage(p)
     \/ \E p \in {RandomElement(Mem \cup {Creator : z \in {Z}})} : \E i \in 1..Len(kps) : ProposeAdd(p, i)
-    \/ \E p \in Mem : \E l \in {RandomElement(LeafSlots(grp[p].tree))} : ProposeRemove(p, l)
+    \/ \E p \in Mem : RandomElement(1..(3 + Z)) = 1 /\ \E l \in {RandomElement(LeafSlots(grp[p].tree))} : ProposeRemove(p, l)
     \/ \E p \in Mem : ProposeUpdate(p)
     \/ \E p \in Mem : ProposeUpdate(p)
+    \/ \E p \in {RParty} : \E why \in {"expired", "cred"} : GenBadKeyPackage(p, why)
+    \/ \E p \in Mem : \E id \in PskIds : ProposePsk(p, id)
+    \/ \E p \in Mem : \E e \in {RandomElement(0..grp[p].epoch)} : ProposeResumptionPsk(p, e)
+    \/ \E p \in Mem : ProposeGce(p)
+    \/ \E p \in Mem : RandomElement(1..(4 + Z)) = 1 /\ ProposeReinit(p)
 
 SimCommit ==
     \/ \E p \in Mem : \E bv \in {PickByVal(grp[p])} :
